@@ -29,12 +29,21 @@ NULL = -1
 TOL = 1e-9
 
 NOT_COVERED = [
-    "genetic_relatedness_vector, pca (randomised linear algebra on top of relatedness)",
+    "genetic_relatedness_vector with mode='site'/'node' (this snapshot's C code supports only "
+    "'branch' there: LibraryError TSK_ERR_UNSUPPORTED_STAT_MODE, although the Python default is "
+    "mode='site') and with the `nodes` argument; pca (randomised linear algebra on top of it)",
     "pair_coalescence_quantiles / pair_coalescence_rates (only pair_coalescence_counts is checked)",
-    "two-locus ld_matrix statistics other than r2 (D, D2, Dz, pi2, D', r, *_unbiased)",
+    "two-locus ld_matrix statistics other than r2 on biallelic sites (D, D2, Dz, pi2, D', r, "
+    "*_unbiased, branch mode, sample sets, multiallelic weighting) - undocumented in this snapshot",
     "trait_linear_model with user covariates Z (only Z=None, i.e. intercept only)",
-    "mode='node' for allele_frequency_spectrum is unsupported by tskit (ValueError checked only)",
-    "time windows / sample-set-pair indexes of pair_coalescence_counts beyond the default",
+    "mode='node' for allele_frequency_spectrum is unsupported by tskit (only the error is checked)",
+    "time_windows of pair_coalescence_counts other than 'nodes'",
+    "Coq models exist only for: the general framework (site/branch/node specification, the C "
+    "branch sweep, the C site allele table), branch AFS with one polarised sample set, the "
+    "relatedness-vector entries, rf_distance, the proportion shapes and the pair-coalescence span; "
+    "Fst, Tajimas_D, trait_*, weighted relatedness, AFS (site / joint / folded), divergence / "
+    "relatedness matrices, GNN, mean_descendants, pair_coalescence_counts values, LD r2 and KC "
+    "are checked by the exact Python oracles only",
     "real thread interleavings (GIL release in _tskitmodule.c): only repeated runs with "
     "num_threads in {1,2,3,8} are compared; the chunk/combine logic is proved in Coq",
     "non-dyadic window breakpoints and non-integer edge coordinates (exactness of the oracle)",
@@ -467,7 +476,7 @@ def build_ts(desc):
 
 # ---- Coq term printing (Q_scope) -------------------------------------------------
 
-PRELUDE = ("From Coq Require Import QArith.\nFrom TskVerif Require Import Base.Common C08.Model C08.Incremental C08.Afs C08.Shapes C08.PairSpan C08.Rf.\n"
+PRELUDE = ("From Coq Require Import QArith.\nFrom TskVerif Require Import Base.Common C08.Model C08.Incremental C08.Afs C08.Shapes C08.PairSpan C08.Rf C08.RelVec.\n"
            "Open Scope Q_scope.")
 
 
@@ -760,7 +769,7 @@ def all_indexes(rng, nsets, k):
 
 PRIMARY = ["diversity", "segregating_sites", "Y1", "divergence", "Y2", "f2", "Y3", "f3", "f4",
            "genetic_relatedness", "genetic_relatedness_weighted",
-           "trait_covariance", "trait_correlation", "trait_linear_model"]
+           "trait_covariance", "trait_correlation", "trait_linear_model", "genetic_relatedness_vector"]
 DERIVED = ["Fst", "Tajimas_D", "genetic_relatedness_proportion"]
 
 
@@ -809,6 +818,17 @@ def named_exact(desc, case, wins, span_normalise=None):
         else:
             f = lambda x: [x[i] * x[j] for i, j in idx]
         return gen(W, f, len(idx), case["polarised"])
+    if st == "genetic_relatedness_vector":
+        # out[w][i][j] = sum_b W[b][j] * C_ib, C = genetic_relatedness between the samples
+        # (polarised, proportion=False, centred or not), docstring of the method
+        Wm = [[fr(x) for x in row] for row in case["W"]]
+        ns, kc = len(smp), len(Wm[0])
+        c2 = {"stat": "genetic_relatedness", "mode": mode, "sets": [[s_] for s_ in smp],
+              "indexes": [(i, j) for i in range(ns) for j in range(ns)], "centre": case["centre"],
+              "polarised": True, "span_normalise": sn}
+        C = named_exact(desc, c2, wins, span_normalise=sn)
+        return [[[sum((Wm[b][j] * Cw[i * ns + b] for b in range(ns)), Fr(0)) for j in range(kc)]
+                 for i in range(ns)] for Cw in C]
     if st == "trait_covariance":
         Wm = [[fr(x) for x in row] for row in case["W"]]
         ns, kc = len(smp), len(Wm[0])
@@ -948,6 +968,9 @@ class NamedStat(Family):
                     if st != "trait_correlation" or all(len({r[j] for r in W}) > 1 for j in range(kc)):
                         break
                 case["W"] = [[enc(x) for x in r] for r in W]
+                if st == "genetic_relatedness_vector":
+                    case["mode"] = "branch"       # the only mode the C code supports here
+                    case["centre"] = rng.random() < 0.5
                 if st == "genetic_relatedness_weighted":
                     r = rng.random()
                     if r < 0.15:
@@ -979,6 +1002,8 @@ class NamedStat(Family):
                                               proportion=(st == "genetic_relatedness_proportion"), **kw)
             return getattr(ts, st)(case["sets"], indexes=idx, **kw)
         W = np.array([[float(fr(x)) for x in r] for r in case["W"]], dtype=float)
+        if st == "genetic_relatedness_vector":
+            return ts.genetic_relatedness_vector(W, centre=case["centre"], **kw)
         if st == "genetic_relatedness_weighted":
             idx = None if drop == "none" else (tuple(case["indexes"][0]) if drop == "flat" else [tuple(t) for t in case["indexes"]])
             return ts.genetic_relatedness_weighted(W, indexes=idx, polarised=case["polarised"],
@@ -1003,6 +1028,21 @@ class NamedStat(Family):
         """first output column of the sample-count statistics against the Coq specification
         (and, in branch mode, the Gallina port of the C sweep)"""
         st = case["stat"]
+        if st == "genetic_relatedness_vector" and "err" not in obs and not case["centre"]:
+            # model of the code: the span_normalise flag is ignored (finding C08-F5)
+            desc = case["desc"]
+            smp = samples_of(desc)
+            out = obs["out"] if case["windows"] not in (None, "none") else [obs["out"]]
+            if any(isinstance(v, str) for v in flatten(out)):
+                return None
+            Wq = "[" + "; ".join("(%d%%Z, %s)" % (s_, cq(fr(r[0]))) for s_, r in zip(smp, case["W"])) + "]"
+            terms = []
+            for i, s_ in enumerate(smp):
+                vals = [win[i][0] for win in out]
+                terms.append("qlist_eqb (grv_code %s %s %s %d%%Z %s %s) %s" % (
+                    "true" if case["span_normalise"] else "false", coq_times(desc), Wq, s_, coq_segs(desc),
+                    cqlist([fr(x) for x in case["wins"]]), cqlist([rat(v) for v in vals])))
+            return " && ".join(terms)
         if "err" in obs or not (st in ONE_WAY or st in K_WAY or st == "genetic_relatedness"):
             return None
         sets = case["sets"]
@@ -1039,7 +1079,7 @@ class NamedStat(Family):
                               [fr(x) for x in case["wins"]], vals, obs.get("tab"))
 
     def shape(self, case, exact, windows_spec):
-        depth = 2 if case["mode"] == "node" else 1
+        depth = 2 if (case["mode"] == "node" or case["stat"] == "genetic_relatedness_vector") else 1
         if case["drop"] is not None:
             exact = drop_last(exact, depth)
         if windows_spec in (None, "none"):
@@ -1060,8 +1100,14 @@ class NamedStat(Family):
         fails = []
         msgs = compare(obs["out"], exact)
         if msgs:
-            fails.append(("definition/%s/%s" % (case["stat"], case["mode"]), "; ".join(msgs[:3])))
-        if case["stat"] in PRIMARY:
+            key = "definition/%s/%s" % (case["stat"], case["mode"])
+            if case["stat"] == "genetic_relatedness_vector" and case["span_normalise"]:
+                # finding C08-F5: exactly the un-normalised value?
+                raw = self.shape(case, named_exact(desc, case, wins, span_normalise=False), case["windows"])
+                if not compare(obs["out"], raw):
+                    key = "genetic_relatedness_vector/span_normalise-ignored"
+            fails.append((key, "; ".join(msgs[:3])))
+        if case["stat"] in PRIMARY and not (case["stat"] == "genetic_relatedness_vector" and case["span_normalise"]):
             fine_w = [fr(x) for x in case["fine"]]
             coarse = obs["out"] if case["windows"] not in (None, "none") else [obs["out"]]
             comb = combine_fine(obs["fine"], fine_w, wins, case["span_normalise"])
